@@ -298,9 +298,23 @@ def run(ctx):
     for k in range(nrt):
         rng = ctx.sub_rng('rt', k)
         sc = Scn(seed=ctx.seed + k, watchdog=120000)
-        sc.add(*bus_lines(), 'debug 1', 'start @null 0')
-        for i in range(rng.randrange(3, 40)):
-            name, ad, a, data = gen.random_call(rng, rng.choice(ADDRS), hot=0.6, long_bias=0.2)
+        big = (k % 3 == 2)
+        if big:
+            # a normal session whose interface announces the largest capacity: long bursts of zero-response messages full of bytes that need
+            # escaping make packets whose escaped image is longer than the sender's staging buffer - followed by ordinary packets
+            from .C01 import normal_start_line
+            sc.add(*bus_lines([(0, 0, 0)]), f'bus cap {rng.choice([255, 255, 200, 160])}', normal_start_line(), 'quiesce')
+        else:
+            sc.add(*bus_lines(), 'debug 1', 'start @null 0')
+        zr = gen.zero_response_names()
+        for i in range(rng.randrange(3, 40) if not big else rng.randrange(30, 90)):
+            if big and rng.random() < 0.6:
+                a = {'mnum': 8 * rng.randrange(16), 'size': 128, 'data': bytes(rng.choice([0xFE, 0xFD, 0xFE, rng.randrange(256)]) for _ in range(16))}
+                name, ad = 'bidib_send_bm_mirror_multiple', (0, 0, 0)
+            elif big:
+                name, ad, a, data = gen.random_call(rng, (0, 0, 0), names=zr, hot=0.9, long_bias=0.3)
+            else:
+                name, ad, a, data = gen.random_call(rng, rng.choice(ADDRS), hot=0.6, long_bias=0.2)
             sc.add(call(name, *S.tokens(name, ad, a)))
             if rng.random() < (0.3 if k % 2 else 0.03):      # odd: frequent flushes; even: long bursts, packets are closed because the next message does not fit
                 sc.add('flush', 'quiesce')
